@@ -57,18 +57,42 @@ impl Decode for PVote {
     }
 }
 
+/// Payload and user data of the harness instantiation: a byte string (same codec as
+/// `Vec<u8>`) whose `Debug` rendering is TEXT (lossy UTF-8), the way a `String` payload
+/// prints: multi-byte characters appear in whatever the crate formats with `{:?}`.
+#[derive(Clone, PartialEq, Eq)]
+pub struct Blob(pub Vec<u8>);
+
+impl std::fmt::Debug for Blob {
+    fn fmt(&self, f: &mut std::fmt::Formatter<'_>) -> std::fmt::Result {
+        write!(f, "{:?}", String::from_utf8_lossy(&self.0))
+    }
+}
+
+impl Encode for Blob {
+    fn encode<W: io::Write>(&self, w: W) -> Result<usize, io::Error> {
+        self.0.encode(w)
+    }
+}
+
+impl Decode for Blob {
+    fn decode<R: io::Read>(r: R) -> Result<Self, io::Error> {
+        Ok(Blob(Vec::<u8>::decode(r)?))
+    }
+}
+
 impl raft_log::Types for HT {
     type LogId = (u64, u64);
-    type LogPayload = Vec<u8>;
+    type LogPayload = Blob;
     type Vote = PVote;
     type Callback = Cb;
-    type UserData = Vec<u8>;
+    type UserData = Blob;
 
     fn log_index(log_id: &Self::LogId) -> u64 {
         log_id.1
     }
     fn payload_size(payload: &Self::LogPayload) -> u64 {
-        payload.len() as u64
+        payload.0.len() as u64
     }
 }
 
@@ -111,12 +135,12 @@ pub fn parse_opair(t: &str) -> Option<(u64, u64)> {
     }
 }
 
-pub fn parse_obytes(t: &str) -> Option<Vec<u8>> {
-    if t == "-" { None } else { Some(unhex(t)) }
+pub fn parse_obytes(t: &str) -> Option<Blob> {
+    if t == "-" { None } else { Some(Blob(unhex(t))) }
 }
 
-pub fn parse_entries(t: &[&str]) -> Vec<((u64, u64), Vec<u8>)> {
-    t.chunks(3).map(|c| ((pu(c[0]), pu(c[1])), unhex(c[2]))).collect()
+pub fn parse_entries(t: &[&str]) -> Vec<((u64, u64), Blob)> {
+    t.chunks(3).map(|c| ((pu(c[0]), pu(c[1])), Blob(unhex(c[2])))).collect()
 }
 
 fn enc_opair(o: Option<(u64, u64)>, b: &mut Vec<u8>) {
@@ -145,8 +169,8 @@ pub fn parse_state_record(t: &[&str]) -> raft_log::WALRecord<HT> {
         None => b.push(0),
         Some(u) => {
             b.push(1);
-            b.extend_from_slice(&(u.len() as u32).to_be_bytes());
-            b.extend_from_slice(&u);
+            b.extend_from_slice(&(u.0.len() as u32).to_be_bytes());
+            b.extend_from_slice(&u.0);
         }
     }
     raft_log::WALRecord::State(decode_as(&b[..], raft_log::WALRecord::State))
@@ -156,7 +180,7 @@ pub fn parse_record(t: &[&str]) -> raft_log::WALRecord<HT> {
     use raft_log::WALRecord as W;
     match t[0] {
         "V" => W::SaveVote(PVote(pu(t[1]), pu(t[2]))),
-        "A" => W::Append((pu(t[1]), pu(t[2])), unhex(t[3])),
+        "A" => W::Append((pu(t[1]), pu(t[2])), Blob(unhex(t[3]))),
         "C" => W::Commit((pu(t[1]), pu(t[2]))),
         "T" => W::TruncateAfter(parse_opair(t[1])),
         "P" => W::PurgeUpto((pu(t[1]), pu(t[2]))),
@@ -184,7 +208,7 @@ macro_rules! rstate_str {
             $crate::proto::opair_str(s.purged()),
             match &s.user_data {
                 None => "-".to_string(),
-                Some(u) => $crate::proto::hex(u),
+                Some(u) => $crate::proto::hex(&u.0),
             }
         )
     }};
@@ -194,7 +218,7 @@ pub fn record_str(r: &raft_log::WALRecord<HT>) -> String {
     use raft_log::WALRecord as W;
     match r {
         W::SaveVote(v) => format!("V {} {}", v.0, v.1),
-        W::Append(id, p) => format!("A {} {} {}", id.0, id.1, hex(p)),
+        W::Append(id, p) => format!("A {} {} {}", id.0, id.1, hex(&p.0)),
         W::Commit(id) => format!("C {} {}", id.0, id.1),
         W::TruncateAfter(o) => format!("T {}", opair_str(o.as_ref())),
         W::PurgeUpto(id) => format!("P {} {}", id.0, id.1),
@@ -214,9 +238,9 @@ pub fn kind_str(k: io::ErrorKind) -> &'static str {
     }
 }
 
-pub fn item_str(r: Result<((u64, u64), Vec<u8>), io::Error>) -> String {
+pub fn item_str(r: Result<((u64, u64), Blob), io::Error>) -> String {
     match r {
-        Ok((id, p)) => format!("ok:{}:{}:{}", id.0, id.1, hex(&p)),
+        Ok((id, p)) => format!("ok:{}:{}:{}", id.0, id.1, hex(&p.0)),
         Err(e) => format!("err:{}", kind_str(e.kind())),
     }
 }
